@@ -155,11 +155,21 @@ def initStore (blocks : List Bytes) : Store :=
   let tbl := blocks.map (fun b => ((md5Hex b).toUTF8.toList, b))
   fun loc => (tbl.find? (fun e => e.1 == loc.take 32)).map (·.2)
 
+/-- `racy`: a timing-dependent event has happened (block packing of model and implementation may
+differ from here on). `dirty`: in that regime, the implementation's failure script may still hold a
+failure (the model's own script position is then no guide: a cancelled save consumes anything between
+"up to the first failure" and "one entry per block group"). -/
 structure DState where
   s : FS9
   racy : Bool
+  dirty : Bool
 
 def scriptClean (k : Keep) : Bool := k.script.all (· == Outcome.ok) && k.dflt == Outcome.ok
+
+/-- the script after the shortest possible consumption by a failing synchronous save: up to and
+including the first failure -/
+def afterFirstFail (k : Keep) : Keep :=
+  { k with script := (k.script.dropWhile (· == Outcome.ok)).drop 1 }
 
 def saveStr (init : List Bytes) (flag : String) (s : FS9) (res : MRes) (calls fails : Nat) : String :=
   let status := match res with
@@ -188,21 +198,24 @@ def runOps (max : Nat) (init : List Bytes) : DState → List Op9 → List String
       let (s', r) := C08.step (implK md5Loc max) st.s o
       let n := s'.world.calls - st.s.world.calls
       let f := s'.world.fails - st.s.world.fails
-      runOps max init { s := s', racy := st.racy || (0 < f && f < n) } ops (resStr r :: acc)
+      let event := 0 < f && f < n
+      runOps max init { s := s', racy := st.racy || event,
+                        dirty := if st.racy then st.dirty else !scriptClean s'.world } ops (resStr r :: acc)
     | Op9.shapes =>
       let l := (project st.s).flatMap (fun d => d.1.files.map (fun f => hexPath (d.1.path ++ [f.1]) ++ "=" ++ fileShape f.2))
       runOps max init st ops (("s" ++ (if st.racy then "~" else "=") ++ ":" ++ joinOr "|" (sortStrings l) ++ ":" ++ storeStr init st.s.world) :: acc)
     | Op9.keep sc d =>
       let s' := { st.s with world := { st.s.world with script := sc, dflt := d } }
-      runOps max init { st with s := s' } ops ("ok" :: acc)
+      runOps max init { st with s := s', dirty := !scriptClean s'.world } ops ("ok" :: acc)
     | Op9.marshal | Op9.sync =>
-      let clean := scriptClean st.s.world
       let (s', res) := marshalFS md5Loc max st.s
       let n := s'.world.calls - st.s.world.calls
       let f := s'.world.fails - st.s.world.fails
       let event := f ≥ 1 && n ≥ 2
-      let flag := if !st.racy then (if event then "~" else "=") else (if clean then "~" else "?")
-      runOps max init { s := s', racy := st.racy || event } ops (saveStr init flag s' res n f :: acc)
+      let flag := if !st.racy then (if event then "~" else "=") else (if st.dirty then "?" else "~")
+      let dirty := if st.racy then st.dirty
+                   else if event then !scriptClean (afterFirstFail st.s.world) else !scriptClean s'.world
+      runOps max init { s := s', racy := st.racy || event, dirty := dirty } ops (saveStr init flag s' res n f :: acc)
 
 def needsSerial : Op9 → Bool
   | Op9.keep sc d => !(sc.isEmpty && d == Outcome.ok)
@@ -223,7 +236,7 @@ def stepLine (line : String) : String :=
         let k : Keep := ⟨initStore bs, [], [], Outcome.ok, 0, 0⟩
         (match loadFS k txt with
          | none => "load=err"
-         | some s0 => ";".intercalate ("load=ok" :: runOps max bs ⟨s0, false⟩ ops []))
+         | some s0 => ";".intercalate ("load=ok" :: runOps max bs ⟨s0, false, false⟩ ops []))
       | _, _, _ => "bad-op"
     | _, _ => "bad-op"
   | _ => "bad-op"
